@@ -126,6 +126,16 @@ def check_frame(case):
     yt, yp, g, w, c = case["y_true"], case["y_pred"], case["groups"], case["w"], case["scale"]
     metrics = {k: getattr(fm, k) for k in case["metrics"]}
     A = _mf(_wrap(case["kind"], yt), _wrap(case["kind"], yp), _wrap(case["sf_kind"], g), _wrap(case["w_kind"], w), metrics)
+    if case.get("reuse_params"):
+        # a second frame built from the very same sample_params dict object (e.g. evaluating a second model)
+        # must be weighted like the first
+        from fairlearn.metrics import MetricFrame
+
+        sp = {k: {"sample_weight": _wrap(case["w_kind"], w)} for k in metrics}
+        MetricFrame(metrics=metrics, y_true=yt, y_pred=yp, sensitive_features=g, sample_params=sp)
+        A = MetricFrame(metrics=metrics, y_true=yt, y_pred=yp, sensitive_features=g, sample_params=sp)
+        if set(sp) != set(metrics) or any("sample_weight" not in v for v in sp.values()):
+            raise PropertyViolation(f"MetricFrame modified the caller's sample_params dict: {sorted(sp)}")
     B = _mf(_rep(yt, w), _rep(yp, w), _rep(g, w), None, metrics)
     S = _mf(yt, yp, g, [c * x for x in w], metrics)
     for other, label, tol in ((B, "replicated rows", 1e-12), (S, f"weights scaled by {c}", 1e-9)):
@@ -218,6 +228,7 @@ def _case(draw, reals=False, metrics=False):
         ms = draw(st.permutations(["selection_rate", "true_positive_rate", "false_positive_rate",
                                    "true_negative_rate", "false_negative_rate", "mean_prediction"]))
         case["metrics"] = list(ms[: draw(st.integers(1, 3))])
+        case["reuse_params"] = draw(st.booleans())
     return case
 
 
